@@ -28,7 +28,10 @@ TInit == /\ ci = 1 /\ root = Null /\ last = Null /\ steps = 0
 Same(a, b) == a.r = b.r /\ a.root = b.root
 AsmPath(n) == n.t = "path" /\ ~n.at /\ Len(n.fr) = 1 /\ n.fr[1].k = "c" /\ n.fr[1].s = "asm"
 \* the call a case is about: X in [set $.asm X], else the plan itself
-Focus(p) == IF p.t = "call" /\ p.fn = "set" /\ Len(p.a) = 2 /\ AsmPath(p.a[1]) /\ p.a[2].t = "call" THEN p.a[2] ELSE p
+\* ... or the middle call of [asm LOCAL-literal call consumer] (the retval / routing families)
+Focus(p) == IF p.t = "call" /\ p.fn = "set" /\ Len(p.a) = 2 /\ AsmPath(p.a[1]) /\ p.a[2].t = "call" THEN p.a[2]
+            ELSE IF p.t = "call" /\ p.fn = "asm" /\ Len(p.a) = 3 /\ p.a[1].t = "obj" /\ p.a[2].t = "call" THEN p.a[2]
+            ELSE p
 KindOf(n) == IF n.t = "path" THEN (IF Simple(n) THEN (IF n.at THEN "@path" ELSE "$path") ELSE "multipath") ELSE n.t
 Cell(p) == LET f == Focus(p) IN IF f.t = "call" THEN <<Canon(f.fn), [j \in 1..Len(f.a) |-> KindOf(f.a[j])]>> ELSE <<f.t, <<>>>>
 ArgClass(n) == CASE n.t = "path" -> "path" [] n.t = "call" -> "call" [] n.t = "pair" -> "pair" [] OTHER -> "literal" 
